@@ -38,7 +38,7 @@ pub trait RefHost {
     /// if the function type has no result).
     fn call(&mut self, import: usize, args: &[u64], mem: &mut Vec<u8>, energy_so_far: u64) -> Result<u64, Trap>;
     /// Called when `memory.grow n` is executed (before growing); mirrors the metering host call.
-    fn grow(&mut self, _pages: u32, _energy_so_far: u64) -> Result<(), Trap> { Ok(()) }
+    fn grow(&mut self, _pages: u32, _energy_so_far: u64, _mem_len: usize) -> Result<(), Trap> { Ok(()) }
 }
 
 pub struct NoHost;
@@ -502,7 +502,8 @@ impl<'a> Instance<'a> {
                     let n = stack.pop().unwrap() as u32;
                     self.stats.mem_grows += 1;
                     let e = self.stats.energy;
-                    if let Err(t) = host.grow(n, e) {
+                    let ml = self.memory.len();
+                    if let Err(t) = host.grow(n, e, ml) {
                         trap!(t)
                     }
                     let sz = self.memory.len() / PAGE;
